@@ -88,6 +88,7 @@ func cmdRules(args []string) {
 			if len(scens[i].Ins) > 0 {
 				b.Reg[i] = fmt.Sprintf("reflect.ValueOf((&gen.C%dImpl{}).Conv)", i)
 			}
+			b.API[i] = fmt.Sprintf("import (\n\tp \"%s/p\"\n\tgen \"%s/gen\"\n)\n\nvar _ p.C%d = &gen.C%dImpl{}\n", b.Mod, b.Mod, i, i)
 		}
 	}
 	hx.Must(b.BuildDriver(nil, false))
@@ -106,7 +107,7 @@ func cmdRules(args []string) {
 		}
 		imps, decls := hx.DescribeFiles(o.Files, map[string]string{b.Mod + "/p": "user"})
 		obs.Write(map[string]any{"id": i, "exec": false, "imports": imps, "decls": decls, "s": scens[i].S, "t": scens[i].T, "cfg": scens[i].Cfg,
-			"gen": o.Gen, "why": why, "namesDecl": strings.Contains(o.Why, "in.go:") || strings.Contains(o.Why, fmt.Sprintf("C%d", i)), "compiles": !badc, "comperr": b.BadComp[i], "diag": o.Gen == "fail" && o.Why != "", "nfiles": len(o.Files)})
+			"gen": o.Gen, "why": why, "apiOK": b.BadAPI[i] == "", "namesDecl": strings.Contains(o.Why, "in.go:") || strings.Contains(o.Why, fmt.Sprintf("C%d", i)), "compiles": !badc, "comperr": b.BadComp[i], "diag": o.Gen == "fail" && o.Why != "", "nfiles": len(o.Files)})
 	}
 	recs, _, err := b.RunDriver(*scenFile, "seq")
 	hx.Must(err)
